@@ -120,7 +120,10 @@ PROPS = {
         # one run serves C18 and (until they are attached to C02/C07/C10/C11) the loop-level clauses:
         # `--profile c18` = keep-alive / zero / connection-timeout schedules, `--profile loop` = scripted
         # sessions x every cut position; no profile = both
-        "runs": [{"vh": "cloop", "selftest": True, "shards_thorough": 16, "max_parallel": 6}],
+        "runs": [{"vh": "cloop", "selftest": True, "shards_thorough": 16, "max_parallel": 6},
+                 # state-machine run: the ping bookkeeping of MqttState (await_pingresp across collisions, acks,
+                 # clean()) compared with the model op by op; monitor c18-ping-forgiven (wave-5 change C18-5)
+                 {"vh": "cstate", "driver": "cstate-C18", "args": ["--focus", "C18"], "only_tags": "^(c18-ping-forgiven|impl-panic)$", "shards_thorough": 8}],
         "lean_extra_targets": ["Proofs.Props.CLoop"],
         "trusted_base": [
             "Timer model: time as Nat milliseconds = tokio's paused clock; `Timely` (a due timer fires before time moves on, the application keeps polling) is a hypothesis of ping_period / silent_broker_detected / connect_timeout",
